@@ -527,6 +527,9 @@ func checkHashHypotheses(cs [][]byte) (inj, nohybrid bool) {
 func runC12(f *common.Flags, res *common.Result, m *mdl) {
 	shim, real, notes := buildWorkers(f.Work)
 	res.Notes = append(res.Notes, notes...)
+	if os.Getenv("VERIF_CACHE_NO_SHIM") != "" {
+		shim = "" // exercise the fallback route
+	}
 	if shim == "" {
 		res.Notes = append(res.Notes, "falling back to strace injection on the worker built from the unmodified package")
 		runC12Strace(f, res, real)
